@@ -260,3 +260,87 @@ func TestVerifSchedules(t *testing.T) {
 		fmt.Fprintln(w, runCase(sc.Text()))
 	}
 }
+
+// TestVerifStress runs real goroutines (no scheduling hook) that follow the
+// ownership discipline: every goroutine owns one reference to each shared
+// handle, increfs/decrefs/gets at random while keeping at least its own, and
+// releases everything at the end.  Run it under -race.
+func TestVerifStress(t *testing.T) {
+	if os.Getenv("VERIF_C20_STRESS") == "" {
+		t.Skip("VERIF_C20_STRESS not set")
+	}
+	seed, _ := strconv.Atoi(os.Getenv("VERIF_C20_STRESS"))
+	const G, H, rounds = 8, 8, 300
+	for round := 0; round < 20; round++ {
+		len0s, len0q := sFrameSets.Len(), sFileSeqs.Len()
+		fset, _ := fileseq.NewFrameSet("1-10")
+		seq, _ := fileseq.NewFileSequence("/a/foo.1-10#.exr")
+		var fsIds [H]FrameSetId
+		var sqIds [H]FileSeqId
+		for h := 0; h < H; h++ {
+			fsIds[h] = sFrameSets.Add(*fset)
+			sqIds[h] = sFileSeqs.Add(seq)
+			for g := 1; g < G; g++ { // one reference per goroutine
+				sFrameSets.Incref(fsIds[h])
+				sFileSeqs.Incref(sqIds[h])
+			}
+		}
+		var wg sync.WaitGroup
+		var bad int32
+		for g := 0; g < G; g++ {
+			wg.Add(1)
+			go func(g int) {
+				defer wg.Done()
+				x := uint64(seed*1000+round*37+g) | 1
+				extra := [H]int{}
+				for i := 0; i < rounds; i++ {
+					x = xor64(x)
+					h := int(x>>8) % H
+					switch (x >> 20) % 4 {
+					case 0:
+						sFrameSets.Incref(fsIds[h])
+						sFileSeqs.Incref(sqIds[h])
+						extra[h]++
+					case 1:
+						if extra[h] > 0 {
+							sFrameSets.Decref(fsIds[h])
+							sFileSeqs.Decref(sqIds[h])
+							extra[h]--
+						}
+					case 2:
+						if _, ok := sFrameSets.Get(fsIds[h]); !ok {
+							atomic.AddInt32(&bad, 1)
+						}
+						if _, ok := sFileSeqs.Get(sqIds[h]); !ok {
+							atomic.AddInt32(&bad, 1)
+						}
+					default:
+						sFrameSets.Len()
+					}
+				}
+				for h := 0; h < H; h++ {
+					for ; extra[h] >= 0; extra[h]-- { // the extras and the goroutine's own reference
+						sFrameSets.Decref(fsIds[h])
+						sFileSeqs.Decref(sqIds[h])
+					}
+				}
+			}(g)
+		}
+		wg.Wait()
+		if bad != 0 {
+			t.Fatalf("a handle with a positive reference count did not resolve (%d times)", bad)
+		}
+		if sFrameSets.Len() != len0s || sFileSeqs.Len() != len0q {
+			t.Fatalf("live-object counts did not return to their starting values: %d/%d vs %d/%d",
+				sFrameSets.Len(), sFileSeqs.Len(), len0s, len0q)
+		}
+		for h := 0; h < H; h++ {
+			if _, ok := sFrameSets.Get(fsIds[h]); ok {
+				t.Fatalf("released frame set handle still resolves")
+			}
+			if _, ok := sFileSeqs.Get(sqIds[h]); ok {
+				t.Fatalf("released sequence handle still resolves")
+			}
+		}
+	}
+}
